@@ -1,6 +1,7 @@
 import AlgopyVerif.Proofs.Factor
 import AlgopyVerif.Proofs.EighStep
 import AlgopyVerif.Proofs.FactorTri
+import AlgopyVerif.Proofs.SvdBlock
 /-!
 # C08 — matrix factorizations satisfy their defining equations modulo t^D
 
@@ -23,9 +24,12 @@ upper by construction.  `eigh_orthogonality`, `eigh_defining_equation`, `eigh_bl
 `UTPM._eigh1` (`S = -½ Σ Q_kᵀQ_{d-k}`, `K = F + Q₀ᵀA_dQ₀ + SΛ₀ + Λ₀S`, `Λ_d = K` on the clusters of equal eigenvalues,
 `Q_d = Q₀(K∘H + S)`) gives `(QᵀQ)_d = 0` and `(QᵀAQ)_d = Λ_d` — the full symmetric eigendecomposition when the
 eigenvalues of `A₀` are distinct (clusters are singletons), the relaxed block problem otherwise.  Triangular structure at every order
-(`qr_R_upper_triangular`, `cholesky_L_lower_triangular`, `lu_U_upper_triangular`, `lu_L_unit_lower_triangular`).  Not proved
+(`qr_R_upper_triangular`, `cholesky_L_lower_triangular`, `lu_U_upper_triangular`, `lu_L_unit_lower_triangular`).
+`svd_from_block_eigh`, `svd_square_full_rank`: `UTPM.svd` reformulates to `eigh` of `B = [[0, A], [Aᵀ, 0]]`; over any commutative ring
+(`ℝ[t]/(t^D)`) the eigen-equation of `B` for the selected columns *is* `A V = U diag(s)`, `Aᵀ U = V diag(s)`, and for a square matrix
+of full rank with `V Vᵀ = 1` this is `A = U diag(s) Vᵀ`.  Not proved
 (partial): tall / wide / full QR, the recursion of `_eigh` over clusters for repeated
-eigenvalues, `eig`, `svd` — checked by residuals on the implementation.
+eigenvalues, `eig`, orthogonality and the `qr_full` completion of `svd` — checked by residuals on the implementation.
 -/
 open Matrix AV.Factor
 namespace AV.C08
@@ -117,5 +121,22 @@ theorem lu_masks (lt : n → n → Prop) [DecidableRel lt] (M : Matrix n n K) (i
 /-- non-vacuity: the order relation hypotheses are met by `<` on `Fin 3` -/
 example : (∀ i j : Fin 3, i < j ∨ i = j ∨ j < i) ∧ (∀ i j : Fin 3, i < j → ¬ j < i) ∧ (∀ i : Fin 3, ¬ i < i) := by
   refine ⟨?_, ?_, ?_⟩ <;> decide
+
+
+section svd
+variable {S : Type} [CommRing S] {m n r : Type} [Fintype m] [Fintype n] [Fintype r] [DecidableEq m] [DecidableEq n] [DecidableEq r]
+
+/-- `UTPM.svd` through `eigh` of the Jordan–Wielandt matrix: the eigen-equation for the selected columns `[U₁; V₁]` is the pair of
+singular-vector equations, also after the scaling by `√2` (any scalar `c`) -/
+theorem svd_from_block_eigh (A : Matrix m n S) (U1 : Matrix m r S) (V1 : Matrix n r S) (sig : r → S) (c : S)
+    (h : fromBlocks (0 : Matrix m m S) A Aᵀ (0 : Matrix n n S) * fromRows U1 V1 = fromRows U1 V1 * diagonal sig) :
+    A * (c • V1) = (c • U1) * diagonal sig ∧ Aᵀ * (c • U1) = (c • V1) * diagonal sig :=
+  AV.SvdBlock.svd_equations A U1 V1 sig c h
+
+/-- square, full rank: `A = U diag(s) Vᵀ` -/
+theorem svd_square_full_rank (A U V : Matrix n n S) (sig : n → S) (h : A * V = U * diagonal sig) (hV : V * Vᵀ = 1) :
+    A = U * diagonal sig * Vᵀ :=
+  AV.SvdBlock.svd_reconstruct A U V sig h hV
+end svd
 
 end AV.C08
